@@ -13,7 +13,8 @@ Next ==
   /\ i' = i + 1
   /\ LET e == Rec[i'] IN
        /\ On("C04") => Judge(i', << <<"C04In", C04In(e)>>, <<"C04Out", C04Out(e)>>, <<"C04Atomic", C04Atomic(e)>> >>)
-       /\ On("C05") => Judge(i', << <<"C05Value", C05Value(e)>>, <<"C05Exact", C05Exact(e)>> >>)
+       /\ On("C05") => Judge(i', << <<"C05Value", C05Value(e)>>, <<"C05Exact", C05Exact(e)>>,
+                          <<"C05Funded", C05Funded(e)>> >>)
        /\ On("C06") => Judge(i', <<
             <<"C06RoundTrip", (i' > 1 /\ e.rt) => C06RoundTrip(Rec[i' - 1], e)>>,
             <<"C06RoundTripFunded", (i' > 1 /\ e.rt) => C06RoundTripFunded(Rec[i' - 1], e)>>,
